@@ -421,6 +421,7 @@ def run_property(pid: str, instances: List[Instance], meta: dict, tier: str, see
             "samples": samples[:6] if samples else [{"note": "no completed path"}],
             "exhaustive": False,
             "explanation": meta.get("explanation", ""),
+            "what_the_check_covers": _claim_text(pid),
             "instances": len(_INSTANCES),
             "instances_skipped_after_early_stop_or_budget": len(skipped_instances),
             "paths_total": tot["paths"],
@@ -528,6 +529,14 @@ def cross_check(xdir: str, seed: int, cap: int) -> dict:
         if os.path.join(xdir, f) not in keep:
             os.unlink(os.path.join(xdir, f))
     return res
+
+
+def _claim_text(pid: str) -> str:
+    try:
+        with open(os.path.join(VERIF, "manifest_notes.json")) as fh:
+            return json.load(fh).get(pid, {}).get("text", "")
+    except Exception:  # noqa: BLE001
+        return ""
 
 
 def _z3v() -> str:
